@@ -1,7 +1,7 @@
 """C05 — signatures are valid, recoverable, low-s and RFC 6979 deterministic."""
 import hashlib
 
-from ..gen import both, boundary_scalar, lib_case, rand_bytes, COLLIDING_KEYS, near_collisions
+from ..gen import both, boundary_scalar, lib_case, rand_bytes, COLLIDING_KEYS, near_collisions, limb_value, swapped_halves
 from ..ref import eth, secp
 from ..ref.keccak import keccak256
 from ..run.core import V
@@ -109,6 +109,15 @@ def gen(shard, rng, tier):
             d = rand_bytes(rng, 32)
             for x in (xa, xb, xa):
                 yield from case(x, d, "near-colliding-keys", True)
+            for _ in range(4):
+                xa, xb = swapped_halves(rng)
+                d = rand_bytes(rng, 32)
+                for x in (xa, xb, xa, xb):
+                    yield from case(x, d, "checksum-colliding-keys", True)
+        for _ in range(300):
+            # digests and keys on multi-word arithmetic boundaries
+            yield from case(boundary_scalar(rng), limb_value(rng).to_bytes(32, "big"), "limb-digest", True)
+            yield from case(limb_value(rng) % (N - 1) + 1, rand_bytes(rng, 32), "limb-key", True)
     for i in range(shard["count"]):
         x = boundary_scalar(rng)
         # pools: the same key with another digest and the same digest with another key inside one server process
@@ -124,6 +133,9 @@ def gen(shard, rng, tier):
         if r < 0.15:
             d = rng.choice(special_d).to_bytes(32, "big")
             yield from case(x, d, "boundary")
+        elif r < 0.2:
+            d = limb_value(rng).to_bytes(32, "big")
+            yield from case(x, d, "limb-digest", True)
         elif r < 0.3:
             d = rng.randrange(N, 2**256).to_bytes(32, "big")
             yield from case(x, d, "digest>=n", True)
